@@ -14,6 +14,14 @@
  *   rawinit <scanning> <services> <strict>
  *   raw <seed> | add <services> <strict> | remove <services> | check <services> <strict>
  *   resize <start0> <count0> <start1> <count1> | rawreset | rawparams <scanning> <services>
+ *   sched <dt_ms> <k> <item>...  deterministic schedule point: one vbi_decode call like `decode`, and right after the k-th
+ *                              release of chswcd_mutex inside that call (k = 1, 2, ..; the mutex is free there, so another
+ *                              thread may run) vbi_channel_switched() is executed, as a thread scheduled exactly there would;
+ *                              then one more frame without data is decoded (the "next frame" at which the documented reset is due).
+ *                              prints ok sched n=<releases in the call> at=<k> inj=<0|1> pre=<countdown before>
+ *                              v=<countdown after each release,..> r=<resets so far at each release,..> rinj=<resets at the injection>
+ *                              end1=<countdown after the call> r1=<resets in the call> end2=<.. after the next frame> r2=<resets in it>
+ *                              (a reset = vbi_chsw_reset reached vbi_caption_channel_switched, counted through the linker wrap)
  * Trace tokens: L<m> U<m> lock/unlock, T<m> trylock ok, F<m> trylock failed, C handler entered,
  *   W<field> the bytes of that shared field changed since the previous token,
  *   !cc:<event type> the handler found cc.mutex held by its own thread (vbi_fetch_cc_page would self-deadlock),
@@ -204,15 +212,41 @@ int __wrap_pthread_mutex_lock(pthread_mutex_t *m)
 	return r;
 }
 
+/* deterministic schedule points (op `sched`): every release of chswcd_mutex by the decoding call is a point
+   where another thread may run; at the chosen one vbi_channel_switched() is executed */
+#define SCHED_MAX 64
+static int sched_on, sched_at, sched_n, sched_inj, sched_busy, sched_rinj;
+static int sched_v[SCHED_MAX], sched_r[SCHED_MAX];
+static int n_reset;
+void __real_vbi_caption_channel_switched(vbi_decoder *vbi);
+void __wrap_vbi_caption_channel_switched(vbi_decoder *vbi)
+{
+	if (sched_on) ++n_reset;
+	__real_vbi_caption_channel_switched(vbi);
+}
+
 int __wrap_pthread_mutex_unlock(pthread_mutex_t *m)
 {
 	const char *n = rec_on ? mutex_name(m) : NULL;
+	int r;
 	if (n) { rec_changes(); rec_tok("U", n); }
 	if (g_vbi && m == &g_vbi->cc.mutex) {
 		if (collecting) collect_states();
 		__atomic_store_n(&cc_owner, (uintptr_t) 0, __ATOMIC_RELAXED);
 	}
-	return __real_pthread_mutex_unlock(m);
+	r = __real_pthread_mutex_unlock(m);
+	if (sched_on && !sched_busy && g_vbi && m == &g_vbi->chswcd_mutex) {
+		if (sched_n < SCHED_MAX) { sched_v[sched_n] = g_vbi->chswcd; sched_r[sched_n] = n_reset; }
+		++sched_n;
+		if (sched_n == sched_at) {
+			sched_busy = 1;
+			vbi_channel_switched(g_vbi, 0);
+			sched_busy = 0;
+			sched_inj = 1;
+			sched_rinj = n_reset;
+		}
+	}
+	return r;
 }
 
 int __wrap_pthread_mutex_trylock(pthread_mutex_t *m)
@@ -572,14 +606,15 @@ static void op_par(void)
 }
 
 /* ---------------- sequential ops ---------------- */
-static void op_decode(void)
+static void op_decode(int sched)
 {
 	vbi_sliced sl[16];
-	long long dt;
-	int n = 0, i;
-	if (h_ntok < 2 || h_ntok > 18 || !h_int(h_tok[1], &dt) || dt < 0 || dt > 100000) { puts("rej parse"); return; }
+	long long dt, at = 0;
+	int n = 0, i, first = sched ? 3 : 2;
+	if (h_ntok < first || h_ntok > first + 16 || !h_int(h_tok[1], &dt) || dt < 0 || dt > 100000) { puts("rej parse"); return; }
+	if (sched && (!h_int(h_tok[2], &at) || at < 0 || at > SCHED_MAX)) { puts("rej parse"); return; }
 	memset(sl, 0, sizeof sl);
-	for (i = 2; i < h_ntok; ++i) {
+	for (i = first; i < h_ntok; ++i) {
 		const char *s = h_tok[i];
 		uint8_t *b;
 		int len;
@@ -607,6 +642,24 @@ static void op_decode(void)
 		n++;
 	}
 	g_time += dt / 1000.0;
+	if (sched) {
+		int pre = g_vbi->chswcd, end1, r1, k;
+		sched_n = 0; sched_inj = 0; sched_rinj = 0; n_reset = 0; sched_at = (int) at; sched_on = 1;
+		vbi_decode(g_vbi, sl, n, g_time);
+		end1 = g_vbi->chswcd; r1 = n_reset;
+		sched_at = 0; k = sched_n;
+		g_time += 0.033;
+		vbi_decode(g_vbi, sl, 0, g_time);
+		sched_on = 0;
+		printf("ok sched n=%d at=%d inj=%d pre=%d v=", k, (int) at, sched_inj, pre);
+		for (i = 0; i < k && i < SCHED_MAX; ++i) printf("%s%d", i ? "," : "", sched_v[i]);
+		if (!k) printf("-");
+		printf(" r=");
+		for (i = 0; i < k && i < SCHED_MAX; ++i) printf("%s%d", i ? "," : "", sched_r[i]);
+		if (!k) printf("-");
+		printf(" rinj=%d end1=%d r1=%d end2=%d r2=%d\n", sched_rinj, end1, r1, g_vbi->chswcd, n_reset - r1);
+		return;
+	}
 	begin_rec();
 	vbi_decode(g_vbi, sl, n, g_time);
 	end_rec("vbi_decode");
@@ -643,7 +696,9 @@ int main(void)
 			rec_on = 0;
 			puts("ok");
 		} else if (!strcmp(op, "decode")) {
-			op_decode();
+			op_decode(0);
+		} else if (!strcmp(op, "sched")) {
+			op_decode(1);
 		} else if (!strcmp(op, "fetch")) {
 			vbi_page pg;
 			if (h_ntok != 2 || !h_int(h_tok[1], &a) || a < -100 || a > 100) { puts("rej parse"); continue; }
